@@ -41,6 +41,19 @@ theorem replace_exact (ks : List Schema) (i : Nat) (s : Schema) (d : Data) (body
     replaceChild ks i d body = .ok (body.set i (merge s d (emptyOf s))) :=
   replaceChild_exact ks i s d body hi hd hu hb
 
+/-- **replace of a list entry** leaves exactly the supplied entry (with its defaults) under that key,
+    nothing of the old entry, every other entry untouched -/
+theorem replace_entry_exact (lks : List Schema) (k : Key) (b : List Data) (rows : List (Key × List Data))
+    (hb : conformsBody lks b = true) (hn : (keysOf rows).Nodup) :
+    editRows .insert lks [(k, b)] (removeRow k rows) =
+      .ok (removeRow k rows ++ [(k, mergeKids lks b (freshBody lks))]) := by
+  have hk : k ∉ keysOf (removeRow k rows) :=
+    not_mem_of_findRow_none k _ (findRow_removeRow_self k rows hn)
+  have := editRows_insert lks (fun ds h1 => editKids_upsert_new lks ds h1) [(k, b)] (removeRow k rows)
+    (by simp [conformsRows, hb]) (by intro k' hk'; simp [keysOf] at hk'; subst hk'; exact hk) (by simp [keysOf])
+  rw [this]
+  simp [mergeRows, findRow_none_of_not_mem k _ hk]
+
 /-- upserting an entry whose key exists merges into it, it never appends a second one -/
 theorem upsert_existing_key_merges (ks : List Schema) (k : Key) (sb tb : List Data) (t : List (Key × List Data))
     (h : findRow k t = some tb) :
